@@ -118,7 +118,7 @@ theorem stepCaller_spec {s s' : St} {i : Nat} (h : stepCaller s i = some s') :
 /-- the caller is between acquiring and releasing `close_lock` -/
 def critPc (c : Caller) : Bool :=
   match c.pc with
-  | .chkEvt | .rel | .relExc => true
+  | .chkEvt | .rel => true
   | .chk1 | .chk2 | .submit | .wait =>
     match c.prog with
     | op :: _ => op.isClose
@@ -132,9 +132,9 @@ def pcOk (c : Caller) : Bool :=
   | op :: _ =>
     match c.pc with
     | .idle => true
-    | .acq | .chkEvt | .rel | .relExc | .waitEvt | .join => op.isClose
-    | .chk1 => op == .send || op.isClose
-    | .chk2 | .submit | .wait => op != .sendUnseq
+    | .acq | .chkEvt | .rel | .waitEvt | .join => op.isClose
+    | .chk1 => op == .send || op == .sendUnseq || op.isClose
+    | .chk2 | .submit | .wait => true
 
 /-- a future exists exactly while the caller is at `future.result()` -/
 def jobOk (c : Caller) : Bool :=
@@ -144,13 +144,11 @@ def jobOk (c : Caller) : Bool :=
 
 /-- flags of the executor / facade as a function of where the close procedure stands -/
 def ginv (s : St) : Bool :=
+  s.lock != some .loop &&
   match s.closePc with
-  | .idle | .spawned | .begun | .wantLock =>
-    !s.stopReq && !s.closedEvent && s.lock != some .loop && s.loopAlive
-  | .haveLock => !s.stopReq && !s.closedEvent && s.lock == some .loop && s.loopAlive
-  | .stopCalled => s.stopReq && !s.closedEvent && s.lock == some .loop && s.loopAlive
-  | .eventSet => s.stopReq && s.closedEvent && s.lock == some .loop && s.loopAlive
-  | .done => s.stopReq && s.closedEvent && s.lock != some .loop
+  | .idle | .spawned | .begun | .inCb => !s.stopReq && !s.closedEvent && s.loopAlive
+  | .stopCalled => s.stopReq && !s.closedEvent && s.loopAlive
+  | .done => s.stopReq && s.closedEvent
 
 def cinv (lock : Option Tid) (i : Nat) (c : Caller) : Prop :=
   pcOk c = true ∧ jobOk c = true ∧ (critPc c = true ↔ lock = some (.caller i))
@@ -543,33 +541,12 @@ theorem stepJob_glob {s s' : St} {i : Nat} (hg : ginv s = true) (h : stepJob s i
 theorem stepClose_glob {s s' : St} (hg : ginv s = true) (h : stepClose s = some s') :
     ginv s' = true ∧ LockIff s s' := by
   unfold stepClose at h
-  split at h <;> rename_i hpc
-  · simp at h
-  · split at h
-    · simp at h
-    · simp only [Option.some.injEq] at h; subst h
-      exact ⟨by revert hg; simp [ginv, hpc] <;> (intros; simp_all), fun _ => Iff.rfl⟩
-  · simp only [Option.some.injEq] at h; subst h
-    exact ⟨by revert hg; simp [ginv, hpc] <;> (intros; simp_all), fun _ => Iff.rfl⟩
-  · split at h
-    · rename_i hlk
-      simp only [Option.some.injEq] at h; subst h
-      exact ⟨by revert hg; simp [ginv, hpc] <;> (intros; simp_all), fun j => by simp [hlk]⟩
-    · simp at h
-  · split at h
-    · rename_i he
-      simp only [Option.some.injEq] at h; subst h
-      revert hg; simp [ginv, hpc, he]
-    · rename_i he
-      simp only [Option.some.injEq] at h; subst h
-      exact ⟨by revert hg; simp [ginv, hpc] <;> (intros; simp_all), fun _ => Iff.rfl⟩
-  · simp only [Option.some.injEq] at h; subst h
-    exact ⟨by revert hg; simp [ginv, hpc] <;> (intros; simp_all), fun _ => Iff.rfl⟩
-  · simp only [Option.some.injEq] at h; subst h
-    refine ⟨by revert hg; simp [ginv, hpc] <;> (intros; simp_all), fun j => ?_⟩
-    have : s.lock = some .loop := by revert hg; simp [ginv, hpc]; intros; simp_all
-    simp [this]
-  · simp at h
+  split at h <;> rename_i hpc <;> (repeat' split at h) <;>
+    first
+    | (simp at h; done)
+    | (simp only [Option.some.injEq] at h; subst h
+       refine ⟨?_, fun _ => Iff.rfl⟩
+       revert hg; simp [ginv, hpc] <;> (intros; simp_all))
 
 theorem stepStop_glob {s s' : St} (hg : ginv s = true) (h : stepStop s = some s') :
     ginv s' = true ∧ LockIff s s' := by
